@@ -300,14 +300,27 @@ impl Srv {
             ups.push((self.m(n), instantiate(&normalize(c))));
           }
         }
+        // measured for the evidence: modules whose text this update re-sends unchanged, and those of them that
+        // currently hold a syntax error
+        let (mut same, mut same_syn) = (vec![], vec![]);
         for (n, c) in op["u"].as_object().cloned().unwrap_or_default().iter() {
           let m = self.m(n);
           let c = &normalize(c);
+          if self.state.string_sources.get(&m) == Some(&instantiate(c)) {
+            same.push(n.clone());
+            if self.state.get_errors(&m).iter().any(|e| e.is_syntax_error()) {
+              same_syn.push(n.clone());
+            }
+          }
           ups.push((m, instantiate(c)));
           logged.insert(n.clone(), c.clone());
           self.contents.insert(n.clone(), c.clone());
         }
         ev["u"] = json!(logged);
+        if !same.is_empty() {
+          ev["same"] = json!(same);
+          ev["same_syn"] = json!(same_syn);
+        }
         guarded(|| self.state.update(ups))
       }
       "Rename" => {
